@@ -51,6 +51,19 @@ def gw(fn):
             FCOUNT["n"] += 1
             return fn(*a, **k)
     return w
+def hw(fn):
+    # a foreign decorator that changes the colour: a sync facade over a coroutine function, an async facade over a plain one
+    if inspect.iscoroutinefunction(fn):
+        @functools.wraps(fn)
+        def w(*a, **k):
+            FCOUNT["n"] += 1
+            return RUN(fn(*a, **k))
+    else:
+        @functools.wraps(fn)
+        async def w(*a, **k):
+            FCOUNT["n"] += 1
+            return fn(*a, **k)
+    return w
 def _out(received):
     LOG.append(("body", received))
     if RES["mode"] == "raise":
@@ -92,6 +105,7 @@ def stacks(tier):
             out.add(b[:pos] + "F" + b[pos:])
             if len(b) <= 2 or tier == "thorough":
                 out.add(b[:pos] + "G" + b[pos:])   # G: foreign functools.wraps(fn, updated=()) decorator
+                out.add(b[:pos] + "H" + b[pos:])   # H: foreign decorator that turns async into sync and vice versa
         if tier == "thorough" and len(b) >= 2:
             for p1, p2 in itertools.combinations(range(len(b) + 1), 2):
                 s = list(b)
@@ -110,6 +124,8 @@ def render_callable(kind, sig, stack, contracts):
             lines.append("@fw")
         elif ch == "G":
             lines.append("@gw")
+        elif ch == "H":
+            lines.append("@hw")
         elif contracts:
             lines.append(CONTRACTS[ch].format(i=i))
             i += 1
@@ -200,7 +216,7 @@ def observe_callable(ns, kind, sig):
             ns["FCOUNT"]["n"] = 0
             try:
                 r = call(tuple(o for _, o in objs_a), {n: o for n, (_, o) in objs_k.items()})
-                if is_async:
+                if inspect.iscoroutine(r):
                     r = ns["RUN"](r)
                 out = ("ret", r is ns["RESULT"])
             except BaseException as e:
@@ -234,7 +250,7 @@ def count_checkers(fn):
 
 def check_callable(item, acc):
     kind, sig, stack = item["kind"], item["sig"], item["stack"]
-    feats = {"family": "callable", "kind": kind, "sig": sig, "stack": stack, "foreign_pos": max(stack.find("F"), stack.find("G")), "foreign_merges_dict": "G" not in stack}
+    feats = {"family": "callable", "kind": kind, "sig": sig, "stack": stack, "foreign_pos": max(stack.find("F"), stack.find("G"), stack.find("H")), "foreign_changes_colour": "H" in stack, "foreign_merges_dict": "G" not in stack}
     key = json.dumps(item, sort_keys=True)
     src_c = HDR + render_callable(kind, sig, stack, True)
     src_b = HDR + render_callable(kind, sig, stack, False)
